@@ -36,19 +36,35 @@ pub fn leak(s: &str) -> &'static str {
 pub fn help_doc(s: &str) -> Doc {
     let mut d = Doc::default();
     let mut rest = s;
-    while let Some(i) = rest.find("{{doc:") {
+    loop {
+        // `{{doc:X}}` - a nested document, `{{lit:X}}` - a literal token of the same document
+        let (i, nested) = match (rest.find("{{doc:"), rest.find("{{lit:")) {
+            (Some(a), Some(b)) => (a.min(b), a < b),
+            (Some(a), None) => (a, true),
+            (None, Some(b)) => (b, false),
+            (None, None) => break,
+        };
         let j = match rest[i..].find("}}") {
             Some(j) => i + j,
             None => break,
         };
         d.text(&rest[..i]);
-        let mut n = Doc::default();
-        n.literal(&rest[i + 6..j]);
-        d.doc(&n);
+        if nested {
+            let mut n = Doc::default();
+            n.literal(&rest[i + 6..j]);
+            d.doc(&n);
+        } else {
+            d.literal(&rest[i + 6..j]);
+        }
         rest = &rest[j + 2..];
     }
     d.text(rest);
     d
+}
+
+/// does the text ask for a help built with the Doc API
+pub fn wants_doc(s: &str) -> bool {
+    s.contains("{{doc:") || s.contains("{{lit:")
 }
 
 fn named(n: &Names, help: &Option<String>) -> NamedArg {
@@ -75,7 +91,7 @@ fn named(n: &Names, help: &Option<String>) -> NamedArg {
     }
     let mut res = res.expect("item without any name");
     if let Some(h) = help {
-        res = if h.contains("{{doc:") {
+        res = if wants_doc(h) {
             res.help(help_doc(h))
         } else {
             res.help(h.as_str())
@@ -137,7 +153,7 @@ fn build_item(i: &Item) -> P {
                 ($t:ty, $f:expr) => {{
                     let mut a = positional::<$t>(mv);
                     if let Some(h) = &i.help {
-                        a = if h.contains("{{doc:") {
+                        a = if wants_doc(h) {
                             a.help(help_doc(h))
                         } else {
                             a.help(h.as_str())
@@ -273,7 +289,13 @@ fn build_wrap(w: &W, id: Id, inner: &Spec) -> P {
         W::Hide => p.hide().boxed(),
         W::HideUsage => p.hide_usage().boxed(),
         W::CustomUsage(u) => p.custom_usage(u.as_str()).boxed(),
-        W::GroupHelp(h) => p.group_help(h.as_str()).boxed(),
+        W::GroupHelp(h) => {
+            if wants_doc(h) {
+                p.group_help(help_doc(h)).boxed()
+            } else {
+                p.group_help(h.as_str()).boxed()
+            }
+        }
         W::WithGroupHelp(h) => {
             let h = h.clone();
             p.with_group_help(move |meta| {
